@@ -63,6 +63,10 @@ def check(model, R, tier):
     R.rule('C15.FAN', 'fan_in = shape[1]*prod(shape[2:]), fan_out = shape[0]*prod(shape[2:]); rank < 2 raises', floor=3)
     R.rule('C15.GAIN', 'calculate_gain maps each documented non-linearity to the documented value and raises otherwise; kaiming passes (nonlinearity, a) and selects fan_in / fan_out by mode, rejecting other modes', floor=19)
     R.rule('C15.OBJECT', 'every filler returns its argument and writes only .data of it (new array of tensor.shape cast to tensor.dtype)', floor=9)
+    from sa import rules_hygiene as _H
+    IM = 'synapgrad.nn.init.'
+    _H.check_signature_order(model, R, 'C15', [IM + n for n in ('uniform_', 'normal_', 'xavier_uniform_', 'xavier_normal_', 'kaiming_uniform_', 'kaiming_normal_')],
+                             siblings=[(IM + 'kaiming_uniform_', IM + 'kaiming_normal_'), (IM + 'xavier_uniform_', IM + 'xavier_normal_')])
     gain = P.atom('gain')
     T = P.atom('tensor')
     # ---------------------------------------------------------------- FAN
